@@ -173,6 +173,22 @@ theorem domain_shift_add (lo hi : R) (size : ℕ) (ds : List (DPrv R)) (ns : Lis
     have := tree_domain lo hi size _ cs r h hb'
     rwa [hsum] at this
 
+/-! non-vacuity of the composition theorems: concrete runs of the same definitions over ℤ -/
+-- composition non-vacuity (ℤ): N = 4, c = 1, pmf = X + 2X², n = 2 and n = 3
+example : (match composeFourier (⟨#[0, 1, 2, 0], ⟨-2, 4, 4, 1⟩⟩ : DPrv ℤ) 2 with
+    | .ok o => (o.pmf.toList, o.dom.tMin, o.dom.tMax, o.dom.size, o.dom.shifts) | .error _ => ([], 0, 0, 0, 0))
+    = ([0, 1, 4, 4], -1, 5, 4, 2) := by decide
+
+example : (match composeFourier (⟨#[0, 0, 3, 1, 0, 0], ⟨-2, 4, 6, 1⟩⟩ : DPrv ℤ) 3 with
+    | .ok o => o.pmf.toList | .error _ => []) = [0, 0, 27, 27, 9, 1] := by decide
+
+-- tree / hetero non-vacuity
+example : (match composeHeterogeneous
+      [(⟨#[0, 1, 1, 0], ⟨-2, 4, 4, 1⟩⟩ : DPrv ℤ), ⟨#[0, 2, 0, 0], ⟨-4, 2, 4, -1⟩⟩, ⟨#[0, 1, 0, 1], ⟨0, 6, 4, 3⟩⟩] [2, 1, 1] with
+    | .ok o => (o.pmf.toList, o.dom.tMin, o.dom.tMax, o.dom.size, o.dom.shifts) | .error _ => ([], 0, 0, 0, 0))
+    = ([0, 2, 4, 4], 1, 7, 4, 4) := by decide
+
+
 end compose
 
 section massSec
@@ -297,5 +313,54 @@ theorem find_epsilon_inverts_hockey_stick (d : DPrv ℝ) (ldEps δ δe ee lo est
   refine ⟨se.2.2.2.2, ?_, ?_, se.1, se.2.1, se.2.2.1, se.2.2.2.1⟩
   · rw [add_sub_cancel_right]; exact su.2.2.2.2
   · rw [sub_add_cancel]; exact sl.2.2.2.2
+
+/-! non-vacuity -/
+-- compute_epsilon non-vacuity over ℝ: grid {0, log 2}, pmf (1/2, 1/2), δ = 1/10
+theorem eps_witness : ∃ lo est hi : ℝ,
+    computeEpsilon (⟨#[1/2, 1/2], ⟨0, Real.log 2, 2, 0⟩⟩ : DPrv ℝ) 0 (1/10) 0 0 = .triple lo est hi := by
+  have hlog : (0:ℝ) < Real.log 2 := Real.log_pos (by norm_num)
+  have e2 : Real.exp (Real.log 2) = 2 := Real.exp_log (by norm_num)
+  have e2' : Real.exp (-Real.log 2) = 1/2 := by rw [Real.exp_neg, e2]; norm_num
+  have t0 : (⟨0, Real.log 2, 2, 0⟩ : Dom ℝ).ts 0 = 0 := by simp [Dom.ts]
+  have t1 : (⟨0, Real.log 2, 2, 0⟩ : Dom ℝ).ts 1 = Real.log 2 := by simp [Dom.ts]
+  have hf : findEpsilon 2 (⟨0, Real.log 2, 2, 0⟩ : Dom ℝ).ts (fun j => (#[(1/2:ℝ), 1/2] : Array ℝ).getD j 0) (1/10)
+      = .ok (Real.log (((1/2:ℝ) - 1/10) / (1/2 * (1/2)))) := by
+    have hs : searchsortedLeft (epsTables 2 (⟨0, Real.log 2, 2, 0⟩ : Dom ℝ).ts
+        (fun j => (#[(1/2:ℝ), 1/2] : Array ℝ).getD j 0)).ndelta 2 (-(1/10)) = 1 := by
+      have n1 : ¬ (epsTables 2 (⟨0, Real.log 2, 2, 0⟩ : Dom ℝ).ts (fun j => (#[(1/2:ℝ), 1/2] : Array ℝ).getD j 0)).ndelta 1 < -(1/10) := by
+        simp only [epsTables, rcs, t1, Analytic.exp, e2, e2']; norm_num
+      have n0 : (epsTables 2 (⟨0, Real.log 2, 2, 0⟩ : Dom ℝ).ts (fun j => (#[(1/2:ℝ), 1/2] : Array ℝ).getD j 0)).ndelta 0 < -(1/10) := by
+        simp only [epsTables, rcs, t0, t1, Analytic.exp, e2']; norm_num
+      have key : ∀ nd : ℕ → ℝ, ¬ nd 1 < -(1/10) → nd 0 < -(1/10) → searchsortedLeft nd 2 (-(1/10)) = 1 := by
+        intro nd h1 h0
+        simp only [searchsortedLeft, bsearch]
+        norm_num [h0, h1]
+      exact key _ n1 n0
+    unfold findEpsilon
+    simp only [hs]
+    simp only [epsTables, rcs, t1, Analytic.exp, Analytic.log, e2']
+    norm_num
+  have : computeEpsilon (⟨#[1/2, 1/2], ⟨0, Real.log 2, 2, 0⟩⟩ : DPrv ℝ) 0 (1/10) 0 0 =
+      .triple (Real.log (((1/2:ℝ) - 1/10) / (1/2 * (1/2))) - 0) (Real.log (((1/2:ℝ) - 1/10) / (1/2 * (1/2))))
+        (Real.log (((1/2:ℝ) - 1/10) / (1/2 * (1/2))) + 0) := by
+    unfold computeEpsilon
+    rw [if_neg (by norm_num), if_neg (by norm_num)]
+    simp only [sub_zero, add_zero, hf]
+  exact ⟨_, _, _, this⟩
+
+/-- the hypotheses of `eps_triple_ordered` / `find_epsilon_inverts_hockey_stick` are jointly satisfiable -/
+example : ∃ lo est hi : ℝ, lo ≤ est ∧ est ≤ hi ∧
+    computeDeltaEstimate (⟨#[1/2, 1/2], ⟨0, Real.log 2, 2, 0⟩⟩ : DPrv ℝ) est = 1/10 := by
+  obtain ⟨lo, est, hi, h⟩ := eps_witness
+  have hp : ∀ j, 0 ≤ (#[(1/2:ℝ), 1/2] : Array ℝ).getD j 0 := by
+    intro j
+    match j with
+    | 0 => norm_num
+    | 1 => norm_num
+    | j + 2 => simp
+  have hlog : (0:ℝ) < Real.log 2 := Real.log_pos (by norm_num)
+  have o := eps_triple_ordered _ 0 (1/10) 0 0 lo est hi hp hlog (le_refl _) (le_refl _) (le_refl _) h
+  have i := find_epsilon_inverts_hockey_stick _ 0 (1/10) 0 0 lo est hi hp hlog (le_refl _) h
+  exact ⟨lo, est, hi, o.1, o.2, i.1⟩
 
 end Opacus.C07
